@@ -1,5 +1,7 @@
 package plugin
 
+import "time"
+
 // Verification primitives. The bodies are dummies: the symbolic executor (/verif/engine) intercepts these
 // functions by name. vNondet* return an arbitrary value of the type (an SMT variable); vAssume restricts,
 // vAssert asks the solver for a counterexample, vCover marks a point that must be reachable (vacuity guard),
@@ -22,6 +24,7 @@ func vDone()                                           {}
 func vRecord(k string, v any)                          {}
 func vSleepUntil(t int64)                              {}
 func vNow() int64                                      { return 0 }
+func vTimeNs(t time.Time) int64                        { return 0 }
 func vDaemon()                                         {}
 func vExitThread()                                     {}
 func vSetenv(k, v string)                              {}
